@@ -156,5 +156,13 @@ example : slashBucket 0 0 100000000000000000
   = [{ del := 10, val := 0, denom := 0, amount := 900 }, { del := 10, val := 0, denom := 1, amount := 1000 },
      { del := 10, val := 1, denom := 0, amount := 1000 }] := by decide
 
+/-- the whole callback: in a state where index and queue agree, a successful `BeforeValidatorSlashed(v, f)` — bonded
+    shares, pending redelegations, pending unbondings, rebalance flag — leaves the unbonding queue with every unmatured
+    entry of `v` cut by ⌊f·amount⌋ exactly once and everything else, the index included, untouched -/
+theorem slash_callback_cuts_every_pending_entry_once (v : ValId) (f : Dec) (w w' : World) (hix : IX w)
+    (h : step (.slash v f) w = (.ok (), w')) :
+    w'.undelQueue = w.undelQueue.map (fun p => (p.1, p.2.map (slashedEntry v f w.time p.1.1))) ∧
+    w'.undelIndex = w.undelIndex := beforeValidatorSlashed_queue_exact v f w w' hix h
+
 end C07
 end Alliance
